@@ -8,7 +8,7 @@
     update existing keys at any time in between — for EVERY interleaving [tr] of updates and
     listing steps.  PARTIAL: that DashMap's iterator behaves like this model is assumed
     (trusted base); the tie is a real-thread stress run checked by the same statement. *)
-From MM Require Import Contract.Trace Contract.UnsyncTrace Contract.SyncTrace Contract.Glue
+From MM Require Import Contract.Trace Contract.UnsyncTrace Contract.SyncTrace Contract.Glue Contract.LastInsert
   Unsync.UInvDefs Unsync.UInv Conc.ShardIter.
 
 Theorem C16_unsync_iter_exact : forall c s now l, cfg_ok c -> WF' c s -> u_iter c s now = Ok l ->
@@ -51,6 +51,20 @@ Theorem C16_conc_value_was_current : forall sh m0 tr k v,
   exists tr1 tr2, tr = tr1 ++ tr2 /\ is_map (s_run sh (s_init m0) tr1) !! k = Some v.
 Proof. exact iter_value_was_current. Qed.
 
+(** every pair an iteration yields carries the value of the textually last insert of its key
+    in the history (Contract/LastInsert.v; deadlines: C05/C06 `…_iter_past_deadline`) *)
+Theorem C16_unsync_iter_shows_last_insert : forall c ops r run run' l,
+  cfg_ok c -> N.of_nat (length (ops ++ [UIter])) < 2 ^ 24 ->
+  u_ref_after c ∅ urun_init ops = Some (r, run) ->
+  ustep c run UIter = Ok (run', OList l) ->
+  forall k v, (k, v) ∈ l -> u_last_insert k ops = Some v.
+Proof. exact u_iter_shows_last_insert. Qed.
+Theorem C16_sync_iter_shows_last_insert : forall c ops r run run' l,
+  s_ref_after c ∅ srun_init ops = Some (r, run) ->
+  sstep c run SIter = Ok (run', SOList l) ->
+  forall k v, (k, v) ∈ l -> s_last_insert k ops = Some v.
+Proof. exact s_iter_shows_last_insert. Qed.
+
 Print Assumptions C16_conc_no_duplicates.
 Print Assumptions C16_conc_complete.
 Print Assumptions C16_conc_only_residents.
@@ -61,3 +75,5 @@ Print Assumptions C16_unsync_iter_justified.
 Print Assumptions C16_sync_iter_justified.
 Print Assumptions C16_unsync_iter_pure.
 Print Assumptions C16_sync_iter_pure.
+Print Assumptions C16_unsync_iter_shows_last_insert.
+Print Assumptions C16_sync_iter_shows_last_insert.
